@@ -1,0 +1,136 @@
+//go:build verif
+
+// Contracts for the verification machinery in /verif (govc). Comment-only.
+//
+// C03 is stated as guard obligations: every site where a record (or its metadata)
+// is released, pushed or where storage is written on behalf of an interface is
+// dominated by a successful permission check of exactly that record with exactly
+// that interface's Local/Internal flags. The check itself is tied to the
+// specification `permitted` by the contracts of Meta.CheckPermission and
+// Options.hasAccessPermission.
+
+package database
+
+//@ spec allPerm(o *Options) bool = o.Local && o.Internal
+
+//@ func (*Options).HasAllPermissions
+//@   requires o != nil
+//@   pure
+//@   ensures r0 == allPerm(o)
+
+//@ func (*Options).hasAccessPermission
+//@   requires o != nil && r != nil
+//@   pure
+//@   ensures r0 == (allPerm(o) || permitted(metaOf(r), o.Local, o.Internal))
+
+// getRecord: a record is returned only after hasAccessPermission(options, that record) returned true
+//@ func (*Interface).getRecord
+//@   requires i != nil && i.options != nil
+//@   nopanic off
+//@   modifies *
+//@   ghost var okR bool = false
+//@   ghost var chkR record.Record = nil
+//@   ghost var chkO *Options = nil
+//@   at after (*Options).hasAccessPermission ghost okR = ret0
+//@   at after (*Options).hasAccessPermission ghost chkR = arg1
+//@   at after (*Options).hasAccessPermission ghost chkO = arg0
+//@   ghost var curO *Options = nil
+//@   at after (*Options).hasAccessPermission ghost curO = i.options
+//@   ensures err == nil ==> okR && chkR == r && chkO == curO
+//@   ensures err != nil ==> r == nil
+
+// getMeta: metadata is returned only after a successful check of that metadata / its record
+//@ func (*Interface).getMeta
+//@   requires i != nil && i.options != nil
+//@   nopanic off
+//@   modifies *
+//@   ghost var okR bool = false
+//@   ghost var chkR record.Record = nil
+//@   ghost var okM bool = false
+//@   ghost var chkM *record.Meta = nil
+//@   ghost var chkL bool = false
+//@   ghost var chkI bool = false
+//@   at after (*Options).hasAccessPermission ghost okR = ret0
+//@   at after (*Options).hasAccessPermission ghost chkR = arg1
+//@   at after (*Meta).CheckPermission ghost okM = ret0
+//@   at after (*Meta).CheckPermission ghost chkM = arg0
+//@   at after (*Meta).CheckPermission ghost chkL = arg1
+//@   at after (*Meta).CheckPermission ghost chkI = arg2
+//@   ghost var oL bool = false
+//@   ghost var oI bool = false
+//@   at after (*Meta).CheckPermission ghost oL = i.options.Local
+//@   at after (*Meta).CheckPermission ghost oI = i.options.Internal
+//@   ensures err == nil ==> (okR && m == metaOf(chkR)) || (okM && chkM == m && chkL == oL && chkI == oI)
+//@   ensures err != nil ==> m == nil
+
+// subscription feeds: a record is pushed only to subscribers whose flags passed the check for it
+//@ func (*Controller).notifySubscribers
+//@   requires c != nil && r != nil
+//@   nopanic off
+//@   modifies *
+//@   ghost var ok bool = false
+//@   ghost var m0 *record.Meta = nil
+//@   ghost var l0 bool = false
+//@   ghost var i0 bool = false
+//@   at after (*Meta).CheckPermission ghost ok = ret0
+//@   at after (*Meta).CheckPermission ghost m0 = arg0
+//@   at after (*Meta).CheckPermission ghost l0 = arg1
+//@   at after (*Meta).CheckPermission ghost i0 = arg2
+//@   ghost var sl bool = false
+//@   ghost var si bool = false
+//@   at after (*Meta).CheckPermission ghost sl = sub.local
+//@   at after (*Meta).CheckPermission ghost si = sub.internal
+//@   at send Feed assert ok && m0 == metaOf(value) && l0 == sl && i0 == si && value == r
+//@   loop 0 invariant rangeindex >= -1 && rangeindex <= 1<<48
+
+// Put / PutNew: storage (or the write cache) is written only with all permissions or after
+// the existing record's metadata passed the permission check (getMeta) or does not exist
+//@ func (*Interface).Put
+//@   requires i != nil && i.options != nil && r != nil
+//@   nopanic off
+//@   modifies *
+//@   ghost var all bool = false
+//@   ghost var metaErr error = nil
+//@   ghost var checked bool = false
+//@   at after (*Options).HasAllPermissions ghost all = ret0
+//@   at after (*Interface).getMeta ghost metaErr = ret2
+//@   at after (*Interface).getMeta ghost checked = true
+//@   at call (*Interface).updateCache assert all || checked
+//@   at call (*Controller).Put assert all || checked
+
+//@ func (*Interface).PutNew
+//@   requires i != nil && i.options != nil && r != nil
+//@   nopanic off
+//@   modifies *
+//@   ghost var all bool = false
+//@   ghost var checked bool = false
+//@   at after (*Options).HasAllPermissions ghost all = ret0
+//@   at after (*Interface).getMeta ghost checked = true
+//@   at call (*Interface).updateCache assert all || checked
+//@   at call (*Controller).Put assert all || checked
+
+// the interface-level query and subscription pass the interface's flags on unchanged
+//@ func (*Interface).Query
+//@   requires i != nil && i.options != nil
+//@   nopanic off
+//@   modifies *
+//@   at call (*Controller).Query assert arg2 == i.options.Local && arg3 == i.options.Internal
+
+//@ func (*Interface).Purge
+//@   requires i != nil && i.options != nil
+//@   nopanic off
+//@   modifies *
+//@   at call (*Controller).Purge assert arg3 == i.options.Local && arg4 == i.options.Internal
+
+//@ func (*Interface).Subscribe
+//@   requires i != nil && i.options != nil
+//@   nopanic off
+//@   modifies *
+//@   at call (*Controller).addSubscription assert arg1 != nil && arg1.local == i.options.Local && arg1.internal == i.options.Internal
+//@   ensures r1 == nil ==> r0 != nil
+
+// an interface created without options is neither local nor internal
+//@ func NewInterface
+//@   nopanic off
+//@   modifies *
+//@   ensures r0 != nil && r0.options != nil && (opts == nil ==> !r0.options.Local && !r0.options.Internal) && (opts != nil ==> r0.options == opts)
